@@ -103,6 +103,12 @@ func c01FreshBytes(c *core.Ctx, r *ecRoles, rule string) {
 			key := core.FuncKey(ig.Read) + " returns bytes"
 			why, ok := c01BytesProvenance(rt.Results[bi], map[ssa.Value]bool{})
 			c.Check(ok, rule, key, core.InstrPos(rt), why, "returned []byte is neither nil nor the result of encoding/json.Marshal: "+why)
+			// nil bytes are the failure shape: they must come with a non-nil error (a (nil, nil) result is neither a record nor a failure)
+			if k, isK := rt.Results[bi].(*ssa.Const); isK && k.IsNil() {
+				errRes := rt.Results[len(rt.Results)-1]
+				c.Check(!core.IsNilConst(errRes), rule, core.FuncKey(ig.Read)+" returns nil bytes only with an error", core.InstrPos(rt), "nil bytes are returned together with an error value",
+					"nil record bytes are returned together with a nil error: Transform.Read hands the caller (nil, nil), which is neither a record (valid JSON), nor a per-record failure, nor a terminal error")
+			}
 			// the encoder's error travels with its bytes: a failed Marshal must not be reported as success
 			if ex, isEx := rt.Results[bi].(*ssa.Extract); isEx && ok {
 				errRes := rt.Results[len(rt.Results)-1]
